@@ -566,6 +566,26 @@ class Body:
         return [l for l, ns in self.varnames.items() if name in ns]
 
 
+def cond_locals(body, sb, depth=2):
+    """locals that the condition tested at switch block `sb` depends on: data origins of the operand,
+    plus (for `matches!`-style merges where the operand is assigned constants in several blocks) the
+    locals tested by the switches those assignments are control dependent on"""
+    vis = set()
+    op = body.blocks[sb]["term"]["op"]
+    origins(body, op, visited=vis, taint=True)
+    if depth > 0:
+        pl = op_place(op)
+        roots = set(vis)
+        for l in list(roots):
+            dl = body.defs().get(l, [])
+            if len(dl) > 1 and all(d_[0] == "assign" and d_[3]["rv"]["k"] == "use" and "const" in d_[3]["rv"]["op"] for d_ in dl):
+                for d_ in dl:
+                    for sb2, t2 in body.direct_control_deps(d_[1]):
+                        if sb2 != sb:
+                            vis |= cond_locals(body, sb2, depth - 1)
+    return vis
+
+
 def all_places(body):
     """every place mentioned in the body: yields (block, place, how) with how in
     'read' | 'write' | 'ref' | 'refmut' | 'arg' | 'switch' | 'drop'"""
@@ -720,7 +740,7 @@ class Origin:
         return "Origin(%s %s bb%s proj=%s%s)" % (self.kind, self.what, self.block, "".join(self.proj), " NEG" if self.neg else "")
 
 
-def origins(body, start, extra_transparent=(), max_nodes=4000, through_fields=True, visited=None, taint=False, taint_barrier=None):
+def origins(body, start, extra_transparent=(), max_nodes=4000, through_fields=True, visited=None, taint=False, taint_barrier=None, through=None):
     """Backward def-use closure of an operand / place / local inside one body.
 
     Returns a list of Origin.  Flow-insensitive over locals (MIR temporaries are
@@ -802,6 +822,8 @@ def origins(body, start, extra_transparent=(), max_nodes=4000, through_fields=Tr
                             push_op(a, (), neg)
                 else:
                     # keep a record that we passed through it
+                    if through is not None:
+                        through.append(call)
                     for i in idxs:
                         if i < len(call.args):
                             # projections do not survive a call boundary, except for
